@@ -116,6 +116,20 @@ def mk_operator(A, form):
     if form == "fun-sparse":
         As = spa.csr_matrix(A)
         return lambda x, flag: As @ x if flag == 1 else As.T @ x
+    if form in ("sparse-csc", "sparse-coo"):
+        return spa.csc_matrix(A) if form == "sparse-csc" else spa.coo_matrix(A)
+    if form == "fun-strided-out":
+        # the handle returns NON-contiguous results: every second entry of a longer work array (a strided view), freshly filled each call
+        def op(x, flag):
+            y = (A if flag == 1 else A.T) @ x
+            w = np.zeros(2 * len(y))
+            w[::2] = y
+            return w[::2]
+        return op
+    if form == "fun-F-out":
+        # results computed through Fortran-ordered intermediates ((X^T A^T)^T pattern): 1-d output of a 2-d F-contiguous product
+        AF, ATF = np.asfortranarray(A), np.asfortranarray(A.T)
+        return lambda x, flag: ((AF if flag == 1 else ATF) @ np.asfortranarray(x.reshape(-1, 1)))[:, 0]
     if form == "fun-buffer":
         # a function handle that writes into persistent output buffers and returns them (legal: the caller owns nothing)
         bufs = {1: np.zeros(A.shape[0]), 2: np.zeros(A.shape[1])}
@@ -165,6 +179,9 @@ def lay(v, meta, allow_int=True):
         return big[1::2]
     if ly == "int" and allow_int and np.array_equal(a, np.round(a)):
         return a.astype(np.int64)
+    if ly == "cuqiarray":
+        import cuqi
+        return cuqi.array.CUQIarray(a, geometry=cuqi.geometry.Continuous1D(len(a)))
     return a
 
 
@@ -216,6 +233,14 @@ class HistoryMismatch(Exception):
     pass
 
 
+class _Boom(Exception):
+    pass
+
+
+def _raiser(*a, **k):
+    raise _Boom("user callable raised")
+
+
 def history_solve(meta, final_json, materialise, construct, attrnames, result_eq, solve=lambda sv: sv.solve()):
     """The theorems read "the solver object" as a function of the attribute VALUES it holds when solve() is called.  Without a history
     spec: construct with the final values and solve.  With meta["history"]:
@@ -229,7 +254,41 @@ def history_solve(meta, final_json, materialise, construct, attrnames, result_eq
     if not h:
         return solve(construct(fin)), fin
     mode = h["mode"]
-    if mode == "shared":
+    if mode == "after_raise":
+        # L14: a solve() that ended in an exception (a user callable raising) must leave the object usable: re-assign, solve, as fresh
+        sv = construct(materialise(dict(final_json, **h.get("first", {}))))
+        setattr(sv, attrnames[h["raiser"]], _raiser)
+        try:
+            solve(sv)
+            raise HistoryMismatch("HISTORY(after_raise): a callable that raises did not make solve() raise")
+        except _Boom:
+            pass
+        for nm in h["attrs"]:
+            setattr(sv, attrnames[nm], fin[nm])
+        out = solve(sv)
+    elif mode == "inplace":
+        # L15: the caller keeps the arrays it handed over and legitimately OVERWRITES them in place between two solves
+        fst = materialise(dict(final_json, **h.get("first", {})))
+        sv = construct(fst)
+        solve(sv)
+        for nm in h["attrs"]:
+            fst[nm][...] = fin[nm]
+        out = solve(sv)
+    elif mode == "copy":
+        # L25: copy.copy(solver) shares the arrays; re-assigning on the copy must not leak into the original (checked after the copy solved)
+        import copy as _copy
+        fst = materialise(dict(final_json, **h.get("first", {})))
+        sv1 = construct(fst)
+        sv2 = _copy.copy(sv1)
+        for nm in h["attrs"]:
+            setattr(sv2, attrnames[nm], fin[nm])
+        out = solve(sv2)
+        o1 = solve(sv1)
+        f1 = solve(construct(materialise(dict(final_json, **h.get("first", {})))))
+        if not result_eq(o1, f1):
+            raise HistoryMismatch("HISTORY(copy): after re-assigning %s on a copy.copy of the solver the ORIGINAL returns %s, a fresh solver with its values %s"
+                                  % (h["attrs"], _show(o1), _show(f1)))
+    elif mode == "shared":
         oth = materialise(dict(final_json, **h.get("first", {})))
         for nm in h["shared"]:
             oth[nm] = fin[nm]
@@ -444,6 +503,19 @@ def lm3_funcs(p, sparse=False):
     Ff = lambda x: sg * np.array([a * (x[1] - x[0] ** 2), a * (x[2] - x[1] ** 2), b - x[0], c * x[0] * x[2] - d], dtype=float)
     Jd = lambda x: sg * np.array([[-2 * a * x[0], a, 0.0], [0.0, -2 * a * x[1], a], [-1.0, 0.0, 0.0], [c * x[2], 0.0, c * x[0]]], dtype=float)
     Jf = (lambda x: spa.csr_matrix(Jd(x))) if sparse else Jd
+    return Ff, Jf
+
+
+def lmz_funcs(p):
+    """r_i(x) = sigma * (x0 * (1 + x1 * t_i) - b_i): at a start with x0 = 0 the second COLUMN of the Jacobian is exactly zero (the gradient is not)"""
+    t, bb, sg = np.array(p["t"], dtype=float), np.array(p["b"], dtype=float), p.get("sigma", 1.0)
+    Ff = lambda x: sg * (x[0] * (1 + x[1] * t) - bb)
+    if p.get("jac_layout") == "F":
+        Jf = lambda x: np.asfortranarray(sg * np.array([1 + x[1] * t, x[0] * t]).T)
+    elif p.get("jac_layout") == "T":
+        Jf = lambda x: (sg * np.array([1 + x[1] * t, x[0] * t])).T          # a transposed view (F-contiguous)
+    else:
+        Jf = lambda x: sg * np.array([1 + x[1] * t, x[0] * t]).T.copy()
     return Ff, Jf
 
 
@@ -839,7 +911,8 @@ def case_pcgls_solve(meta):
 
 def case_fista_runs(meta):
     K = meta["K"]
-    obs = [(j,) + drive_fista(meta, j, meta["abstol"]) for j in range(1, K + 1)]
+    j0 = 0 if meta.get("from0") else 1
+    obs = [(j,) + drive_fista(meta, j, meta["abstol"]) for j in range(j0, K + 1)]
     n = len(meta["x0"])
     expr = "check_fista_runs %s %s %s %s %s %s %s %s %s" % (
         cnat(n), cqmat(meta["A"]), cqvec(meta["b"]), cqvec(meta["x0"]), cprox(meta["prox"]), cq(meta["t"]), cq(meta["abstol"]),
@@ -847,7 +920,7 @@ def case_fista_runs(meta):
     fail = sig = None
     if meta["form"] != "dense":
         m2 = dict(meta, form="dense")
-        obs2 = [(j,) + drive_fista(m2, j, meta["abstol"]) for j in range(1, K + 1)]
+        obs2 = [(j,) + drive_fista(m2, j, meta["abstol"]) for j in range(j0, K + 1)]
         same = all(a[2] == b[2] and np.allclose(a[1], b[1], rtol=1e-12, atol=1e-12) for a, b in zip(obs, obs2))
         if not same:
             fail, sig = "runs of form %s differ from the dense-matrix form" % meta["form"], SIG["fista_forms"]
@@ -868,6 +941,20 @@ def case_fista_conv(meta):
         fail = "stopping test did not fire within maxit=%d" % meta["maxit"]
     return Case(expr=expr, meta=meta, cell="fista/converged/%s/%s/%s" % (meta["proxcell"], "fista" if meta["adaptive"] else "ista", meta["shape"]),
                 trivial=False, kind="DECISION", impl_fail=fail, signature=SIG["fista"] if fail else "")
+
+
+def case_fista_defaults(meta):
+    """FISTA(A, b, x0, proximal) with all optionals omitted must be the run with the documented defaults spelled out (that explicit call is what
+    the runs/converged cells tie to the model); and it must have made at most the default 100 iterations"""
+    S = solver_mod()
+    A = mk_operator(meta["A"], meta["form"])
+    b, x0 = np.array(meta["b"], dtype=float), np.array(meta["x0"], dtype=float)
+    x, k = S.FISTA(A, b, x0, mk_prox(meta)).solve()
+    x2, k2 = S.FISTA(mk_operator(meta["A"], meta["form"]), b.copy(), x0.copy(), mk_prox(meta), maxit=100, stepsize=1.0, abstol=1e-14, adaptive=True).solve()
+    ok = bool(np.array_equal(x, x2) and k == k2 and 1 <= k <= 100)
+    return Case(expr=cbool(ok), meta=meta, cell="fista/defaults-all/%s" % meta["proxcell"], kind="DECISION",
+                impl_fail=None if ok else "FISTA(A,b,x0,proximal) returned (%s, %d); with the documented defaults spelled out (maxit=100, stepsize=1, abstol=1e-14, adaptive=True): (%s, %d)" % (fl(x), k, fl(x2), k2),
+                signature="" if ok else SIG["fista"])
 
 
 def case_prox(meta, rng):
@@ -938,6 +1025,9 @@ def case_lm_conv(meta):
     elif meta["op"] == "lm_conv3":
         Ff, Jf = lm3_funcs(meta["p"], meta.get("sparse", False))
         x0 = np.array(meta["x0"], dtype=float)
+    elif meta["op"] == "lm_convz":
+        Ff, Jf = lmz_funcs(meta["p"])
+        x0 = np.array(meta["x0"], dtype=float)
     else:
         Ff, Jf = lm2_funcs(meta["p"])
         x0 = np.array(meta["x0"], dtype=float)
@@ -951,16 +1041,16 @@ def case_lm_conv(meta):
     else:
         fj = {"p": meta["p"], "x0": meta["x0"], "maxit": meta["maxit"], "gradtol": meta["gradtol"], "nu0": nu0v}
         def mat(v):
-            F_, J_ = lm3_funcs(v["p"], meta.get("sparse", False)) if meta["op"] == "lm_conv3" else lm2_funcs(v["p"])
-            return {"F": F_, "J": J_, "x0": np.array(v["x0"], dtype=float), "maxit": int(v["maxit"]), "gradtol": v["gradtol"], "nu0": v["nu0"]}
+            F_, J_ = lm3_funcs(v["p"], meta.get("sparse", False)) if meta["op"] == "lm_conv3" else (lmz_funcs(v["p"]) if meta["op"] == "lm_convz" else lm2_funcs(v["p"]))
+            return {"F": F_, "J": J_, "x0": np.array(v["x0"], dtype=np.int64 if meta.get("x0_dtype") == "int" else float), "maxit": int(v["maxit"]), "gradtol": v["gradtol"], "nu0": v["nu0"]}
     lm_eq = lambda a, b_: (np.array_equal(np.asarray(a[0], dtype=float), np.asarray(b_[0], dtype=float), equal_nan=True) and int(a[1]["nfev"]) == int(b_[1]["nfev"]))
     with np.errstate(all="ignore"):
         (x, info), fin = history_solve(meta, fj, mat,
                                        (lambda v: S.LM(v["F"], v["x0"], v["J"])) if meta.get("omit") else
                                        (lambda v: S.LM(v["F"], v["x0"], v["J"], maxit=v["maxit"], gradtol=v["gradtol"], nu0=v["nu0"], sparse=meta.get("sparse", False))),
                                        {"F": "A", "J": "jacfun", "x0": "x0", "maxit": "maxit", "gradtol": "gradtol", "nu0": "nu0"}, lm_eq)
-    x0 = fin["x0"]
-    _unchanged("x0", x0, x0_in)
+    x0 = np.asarray(fin["x0"], dtype=float)
+    _unchanged("x0", fin["x0"], x0_in)
     k = int(info["nfev"])
     if not np.all(np.isfinite(np.asarray(x, dtype=float))):
         # float-only failure mode (not expressible in the exact-arithmetic model): once f - ftemp rounds to 0 the step is accepted with
@@ -1187,7 +1277,7 @@ def case_ls(meta):
 
 BUILDERS = {
     "cgls_iters": case_cgls_iters, "cgls_solve": case_cgls_solve, "pcgls_iters": case_pcgls_iters, "pcgls_solve": case_pcgls_solve,
-    "fista_runs": case_fista_runs, "fista_conv": case_fista_conv, "lm_iters": case_lm_iters, "lm_trace": case_lm_trace, "lm_trace2": case_lm_trace2, "lm_conv1": case_lm_conv, "lm_conv2": case_lm_conv, "lm_conv3": case_lm_conv,
+    "fista_runs": case_fista_runs, "fista_defaults": case_fista_defaults, "fista_conv": case_fista_conv, "lm_iters": case_lm_iters, "lm_trace": case_lm_trace, "lm_trace2": case_lm_trace2, "lm_conv1": case_lm_conv, "lm_conv2": case_lm_conv, "lm_conv3": case_lm_conv, "lm_convz": case_lm_conv,
     "minimize": case_minimize, "maximize": case_minimize, "lbfgsb": case_lbfgsb, "ls": case_ls,
 }
 
@@ -1538,7 +1628,11 @@ def metas(ctx):
         firsts = {"A": alt_matrix(me["A"]), "b": alt_vec(me["b"]), "x0": alt_vec(me["x0"], -4, 4), "shift": me["shift"] * 4 + 0.5, "tol": 2.0 ** -3, "maxit": 2}
         hmodes = ([{"mode": "repeat"}] + [{"mode": "reassign", "attrs": at, "first": {k_: firsts[k_] for k_ in at}}
                                           for at in (["b"], ["A"], ["x0"], ["shift"], ["tol", "maxit"], ["A", "b", "x0", "shift", "tol", "maxit"])]
-                  + [{"mode": "shared", "shared": ["A", "b"], "first": {"x0": firsts["x0"], "shift": firsts["shift"]}}])
+                  + [{"mode": "shared", "shared": ["A", "b"], "first": {"x0": firsts["x0"], "shift": firsts["shift"]}}]
+                  # round-4 lessons: arrays overwritten IN PLACE by the caller between solves; copy.copy of the solver; reuse after an exception
+                  + [{"mode": "inplace", "attrs": ["b", "x0"] + (["A"] if form == "dense" else []), "first": {k_: firsts[k_] for k_ in ["b", "x0"] + (["A"] if form == "dense" else [])}},
+                     {"mode": "copy", "attrs": ["b", "shift"], "first": {"b": firsts["b"], "shift": firsts["shift"]}}]
+                  + ([{"mode": "after_raise", "raiser": "A", "attrs": ["A"], "first": {}}] if form == "fun" else []))
         for hm in hmodes:
             if form != "dense" and hm["mode"] == "reassign" and len(hm["attrs"]) == 1 and hm["attrs"][0] in ("shift", "x0") and not ctx.thorough:
                 continue
@@ -1567,7 +1661,10 @@ def metas(ctx):
               "t": mf["t"] / 4, "abstol": 0.5, "adaptive": not adaptive, "maxit": 20}
         fmodes = ([{"mode": "repeat"}] + [{"mode": "reassign", "attrs": at + ["maxit"], "first": dict({k_: ff[k_] for k_ in at}, maxit=20)}
                                           for at in (["b"], ["A"], ["x0"], ["prox"], ["t"], ["abstol"], ["adaptive"], ["A", "b", "x0", "prox", "t", "abstol", "adaptive"])]
-                  + [{"mode": "shared", "shared": ["A", "b"], "first": {"x0": ff["x0"]}}])
+                  + [{"mode": "shared", "shared": ["A", "b"], "first": {"x0": ff["x0"]}}]
+                  + [{"mode": "inplace", "attrs": ["b", "x0"] + (["A"] if form == "dense" else []), "first": {k_: ff[k_] for k_ in ["b", "x0"] + (["A"] if form == "dense" else [])}},
+                     {"mode": "copy", "attrs": ["b"], "first": {"b": ff["b"]}},
+                     {"mode": "after_raise", "raiser": "prox", "attrs": ["prox"], "first": {}}])
         for hm in fmodes:
             out.append(dict(mf, op="fista_conv", maxit=200000, abstol=1e-8, history=hm))
         out.append(dict(mf, op="fista_runs", K=4, abstol=0.0, history={"mode": "reassign", "attrs": ["A", "b", "maxit"], "first": {"A": ff["A"], "b": ff["b"], "maxit": 3}}))
@@ -1578,7 +1675,9 @@ def metas(ctx):
         fl_ = {"co": [[c[0], c[1] * 2, c[2] + 2.0 ** k] for c in co], "x0": [x0_ + 1.5], "nu0": nu0 * 4, "gradtol": 0.5, "maxit": 2}
         for hm in [{"mode": "repeat"}, {"mode": "reassign", "attrs": ["F", "J"], "first": {"co": fl_["co"]}}, {"mode": "reassign", "attrs": ["x0"], "first": {"x0": fl_["x0"]}},
                    {"mode": "reassign", "attrs": ["nu0"], "first": {"nu0": fl_["nu0"]}}, {"mode": "reassign", "attrs": ["gradtol", "maxit"], "first": {"gradtol": 0.5, "maxit": 2}},
-                   {"mode": "reassign", "attrs": ["F", "J", "x0", "nu0", "gradtol", "maxit"], "first": fl_}]:
+                   {"mode": "reassign", "attrs": ["F", "J", "x0", "nu0", "gradtol", "maxit"], "first": fl_},
+                   {"mode": "inplace", "attrs": ["x0"], "first": {"x0": fl_["x0"]}}, {"mode": "copy", "attrs": ["x0", "nu0"], "first": {"x0": fl_["x0"], "nu0": fl_["nu0"]}},
+                   {"mode": "after_raise", "raiser": "F", "attrs": ["F"], "first": {}}]:
             out.append(dict(me, op="lm_conv1", history=hm))
     pr = {"a": 10, "b": 1, "c": 0, "d": 0, "sigma": 0.03}
     for hm in [{"mode": "repeat"}, {"mode": "reassign", "attrs": ["F", "J", "x0"], "first": {"p": {"a": 3, "b": -1, "c": 1, "d": 1, "sigma": 1.0}, "x0": [0.5, 0.5]}}]:
@@ -1672,6 +1771,87 @@ def metas(ctx):
         mp.update(P=gen_precond(rng, n_, "general").astype(int).tolist(), pkind="general/MAX_DIM_INV=dim%+d" % off, pinv="explicit" if off else "spsolve", max_dim_inv=n_ + off)
         out.append(dict(mp, op="pcgls_solve", tol=1e-6, maxit=100))
         out.append(dict(mp, op="pcgls_iters", K=n_ + 1))
+    # ---- round-4 lessons ----
+    # L19 / L23: callables whose RESULTS are strided or come from Fortran-ordered products; sparse formats csc / coo
+    for form, shiftcell in itertools.product(["fun-strided-out", "fun-F-out", "sparse-csc", "sparse-coo"], ["0", "+"]):
+        me = gen_lsq_meta(rng, rng.choice(["over", "under"]) if shiftcell == "+" else "over", shiftcell, "random", form)
+        out.append(dict(me, op="cgls_iters", K=min(len(me["A"]), len(me["x0"])) + 1))
+        out.append(dict(me, op="cgls_solve", tol=1e-6, maxit=100, stopcell="tol1e-6"))
+        if shiftcell == "0":
+            mp = gen_lsq_meta(rng, "over", "0", "random", form)
+            while len(mp["x0"]) < 2:
+                mp = gen_lsq_meta(rng, "over", "0", "random", form)
+            mp.update(P=gen_precond(rng, len(mp["x0"]), "general").astype(int).tolist(), pkind="general", pinv="explicit")
+            out.append(dict(mp, op="pcgls_solve", tol=1e-6, maxit=100))
+            mf = gen_lsq_meta(rng, "over", "0", "random", form)
+            Af = np.array(mf["A"], dtype=float)
+            mf.update(prox={"kind": "nonneg"}, proxcell="nonneg", adaptive=rng.choice([True, False]), t=2.0 ** -int(np.ceil(np.log2(float(np.sum(Af * Af))))), stepcell="dyadic")
+            del mf["shift"]
+            out.append(dict(mf, op="fista_runs", K=5, abstol=0.0))
+    # L23: b and x0 handed over as CUQIarray (an ndarray SUBCLASS)
+    me = dict(gen_lsq_meta(rng, "over", "+", "random", "dense"), layout="cuqiarray")
+    out.append(dict(me, op="cgls_solve", tol=1e-6, maxit=100, stopcell="tol1e-6"))
+    out.append(dict(me, op="cgls_iters", K=3))
+    mf = dict(gen_lsq_meta(rng, "over", "0", "random", "dense"), layout="cuqiarray")
+    Af = np.array(mf["A"], dtype=float)
+    mf.update(prox={"kind": "l1", "strength": 1, "direct": True}, proxcell="l1", adaptive=True, t=2.0 ** -int(np.ceil(np.log2(float(np.sum(Af * Af))))), stepcell="dyadic")
+    del mf["shift"]
+    out.append(dict(mf, op="fista_runs", K=5, abstol=0.0))
+    # L18: EXACT ZEROS inside otherwise generic data: an all-zero row of A, an all-zero column (with shift > 0), block-decoupled A and P
+    for zc in ["zero-row", "zero-column", "block-diagonal"]:
+        for form in ["dense", "fun"]:
+            if zc == "zero-row":
+                me = gen_lsq_meta(rng, "over", rng.choice(["0", "+"]), "random", form)
+                me["A"] = me["A"] + [[0] * len(me["x0"])]
+                me["b"] = me["b"] + [rng.randint(1, 5)]
+            elif zc == "zero-column":
+                me = gen_lsq_meta(rng, "over", "+", "random", form)
+                while len(me["x0"]) < 2:
+                    me = gen_lsq_meta(rng, "over", "+", "random", form)
+                me["A"] = [[0] + r[1:] for r in me["A"]]
+            else:
+                B1 = gen_matrix(rng, 2, 1, 0.0).astype(int).tolist()
+                B2 = gen_matrix(rng, 3, 2, 0.0).astype(int).tolist()
+                A_ = [r + [0, 0] for r in B1] + [[0] + r for r in B2]
+                me = {"A": A_, "b": [rng.randint(-5, 5) or 1 for _ in A_], "x0": [rng.randint(-4, 4) for _ in range(3)], "shift": rng.choice([0.0, 0.5]),
+                      "form": form, "shape": "over", "start": "random"}
+            me["start"] = "random/" + zc
+            out.append(dict(me, op="cgls_iters", K=min(len(me["A"]), len(me["x0"])) + 1))
+            out.append(dict(me, op="cgls_solve", tol=1e-6, maxit=100, stopcell="tol1e-6"))
+            if len(me["x0"]) >= 2 and zc != "zero-column":
+                n_ = len(me["x0"])
+                Pb = [[(rng.choice([1, 2, -3]) if i == j else (rng.randint(-2, 2) if (i < 1) == (j < 1) else 0)) for j in range(n_)] for i in range(n_)]
+                if abs(np.linalg.det(np.array(Pb, dtype=float))) > 0.5:
+                    mp = dict(me, shift=0.0, P=Pb, pkind="block-diagonal/" + zc, pinv=rng.choice(["explicit", "spsolve"]))
+                    mp["A"] = [list(r) for r in me["A"]]
+                    if zc == "block-diagonal" or True:
+                        out.append(dict(mp, op="pcgls_solve", tol=1e-6, maxit=100))
+    # L18 / L19: LM whose Jacobian has an exactly-zero COLUMN at the start point; Jacobian callables returning Fortran-ordered / transposed-view results
+    for k, jl in itertools.product([-5, 0, 5], [None, "F", "T"]):
+        sg = 2.0 ** k
+        out.append({"op": "lm_convz", "p": {"t": [1, 2, 3, 4], "b": [rng.randint(1, 4), rng.randint(2, 6), rng.randint(3, 8), rng.randint(4, 10)], "sigma": sg, "jac_layout": jl},
+                    "x0": [0.0, float(rng.randint(-1, 1))], "nu0": 2.0 ** -3 * sg * sg, "use_nu0": True, "maxit": 5000, "gradtol": 1e-6, "must_converge": True,
+                    "rho_class": "harmless", "cell": "n2/zero-jacobian-column/sigma2^%d/jac-%s" % (k, jl or "C")})
+    # L20: integer-dtype start vector for LM and the wrappers
+    out.append({"op": "lm_conv2", "p": {"a": 10, "b": 1, "c": 0, "d": 0, "sigma": 1.0}, "x0": [2, -1], "x0_dtype": "int", "nu0": 2.0 ** -3, "use_nu0": True, "maxit": 5000,
+                "gradtol": 1e-6, "must_converge": True, "rho_class": "harmless", "cell": "n2/rosenbrock/int-x0"})
+    # L21 / L22: degenerate counts (maxit = 0 is falsy) and the shipped defaults run as shipped
+    mf = gen_lsq_meta(rng, "over", "0", "random", "dense")
+    Af = np.array(mf["A"], dtype=float)
+    mf.update(prox={"kind": "l1", "strength": 1, "direct": True}, proxcell="l1/maxit0", adaptive=True, t=2.0 ** -int(np.ceil(np.log2(float(np.sum(Af * Af))))), stepcell="dyadic")
+    del mf["shift"]
+    out.append(dict(mf, op="fista_runs", K=2, abstol=0.0, from0=True))
+    for pk, pc in [({"kind": "l1", "strength": 1, "direct": True}, "l1"), ({"kind": "box", "lo": None, "up": None}, "box-none")]:
+        md = gen_lsq_meta(rng, "over", "0", "random", rng.choice(["dense", "fun"]))
+        Ad = np.array(md["A"], dtype=float)
+        md = scale_lsq(md, 2.0 ** -int(np.ceil(np.log2(float(np.sum(Ad * Ad))) / 2)), 1.0)
+        md.update(prox=pk, proxcell=pc)
+        out.append(dict(md, op="fista_defaults"))
+    # L26: a huge start vector (large offset), small solution
+    for form in ["dense", "fun"]:
+        me = gen_lsq_meta(rng, "over", rng.choice(["0", "+"]), "random", form)
+        me["x0"] = [rng.choice([-1, 1]) * rng.randint(1, 3) * 2.0 ** 15 for _ in me["x0"]]
+        out.append(dict(me, op="cgls_solve", tol=1e-6, maxit=100, stopcell="huge-start", start="huge"))
     # ---- wrappers ----
     methods = [None, "BFGS", "L-BFGS-B", "CG", "SLSQP", "TNC", "Nelder-Mead", "Powell", "COBYLA"]
     for op, method, with_grad in itertools.product(["minimize", "maximize"], methods, [True, False]):
